@@ -9,7 +9,7 @@ import aiortc.rtcsctptransport as S
 from checks.sctp_common import base_problems, complete_delivery, drain_verdict, session_classes
 from vlib.runner import Check, Family, Outcome
 from vlib.sctpsim import Session
-from vlib.strategies import session_case, yielding
+from vlib.strategies import abandon_case, session_case, yielding
 
 
 def run_session(case: dict) -> Outcome:
@@ -101,6 +101,7 @@ CHECK = Check(
                lambda tier: session_case(tier, reliable_only=False, need_partial=True, max_sends=30 if tier == "quick" else 60,
                                          loss_bias=True, burst_bias=True, warmup=True),
                quick=5000, thorough=100000, min_shard=20),
+        Family("forward-tsn", run_session, abandon_case, quick=3000, thorough=60000, min_shard=20),
         Family("yielding-send", run_session,
                lambda tier: yielding(session_case(tier, reliable_only=False, need_partial=True, max_sends=30 if tier == "quick" else 60,
                                                   loss_bias=True, burst_bias=True, warmup=True)),
